@@ -1,8 +1,8 @@
 (* C02 - PoSER merging reproduces the global mode shape from re-scaled setups. *)
 From Coq Require Import List Arith Lia Bool Ring Field String ZArith QArith Qcanon.
 From PyOMA.Base Require Import Carrier Cplx Show.
-From PyOMA.Model Require Import M_merge.
-From PyOMA.Proofs Require Import P_merge.
+From PyOMA.Model Require Import M_merge M_poser.
+From PyOMA.Proofs Require Import P_merge P_poser.
 Import ListNotations.
 
 Section S.
@@ -79,6 +79,61 @@ Theorem C02_mean_var_const : forall (x n:R) (l:list R),
   n <> o0 K -> rsum K (map (fun _ => o1 K) l) = n -> (forall y, In y l -> y = x) ->
   mean K n l = x /\ pvar K n l = o0 K.
 Proof. exact (mean_var_const R K Fth). Qed.
+(* ---- the class MultiSetup_PoSER (M_poser.v) ----
+   Whatever the inputs: every record merge_results() returns for a group carries, mode by mode, the arithmetic mean over
+   the group's setups and population variance / mean^2, for Fn and for Xi.  stats_ok n col mu c2 is, by definition,
+     n*mu = sum col  /\  n*pvar = sum (x-mu)^2  /\  pvar = (sum x^2)/n - mu^2  /\  (mu <> 0 -> c2*mu^2 = pvar)  /\
+     (n-1 <> 0 -> pvar <> 0 -> the ddof=1 estimate differs from pvar)           (C02_stats_ok_unfold below)       *)
+Theorem C02_merged_stats : forall (algs:list (alg_res R)) (refl:list (list nat)) (m:merged R) (k:nat),
+  merge_group K algs refl = GroupOk m -> ofnat K (List.length algs) <> o0 K ->
+  ((k < List.length (hd [] (map a_fn algs)))%nat ->
+     stats_ok R K (ofnat K (List.length algs)) (map (fun a : alg_res R => nth k (a_fn a) (o0 K)) algs) (nth k (m_fn m) (o0 K)) (nth k (m_fn_cov2 m) (o0 K))) /\
+  ((k < List.length (hd [] (map a_xi algs)))%nat ->
+     stats_ok R K (ofnat K (List.length algs)) (map (fun a : alg_res R => nth k (a_xi a) (o0 K)) algs) (nth k (m_xi m) (o0 K)) (nth k (m_xi_cov2 m) (o0 K))).
+Proof. exact (merged_stats R K Fth). Qed.
+Theorem C02_stats_ok_unfold : forall (n:R) (col:list R) (mu c2:R),
+  stats_ok R K n col mu c2 <->
+  (omul K n mu = rsum K col /\
+   omul K n (pvar K n col) = rsum K (sqdev R K mu col) /\
+   pvar K n col = osub K (odiv K (rsum K (map (fun x => omul K x x) col)) n) (omul K mu mu) /\
+   (mu <> o0 K -> omul K c2 (omul K mu mu) = pvar K n col) /\
+   (osub K n (o1 K) <> o0 K -> pvar K n col <> o0 K -> svar R K n col <> pvar K n col)).
+Proof. intros n col mu c2. exact (iff_refl _). Qed.
+
+(* End to end at the level of the class.  Layout (sensors, reference positions) per setup, at least two setups, shared by
+   all algorithms; nalg >= 1 algorithms under distinct names; algorithm a has its own global table sp_G, mode count sp_nm,
+   non-zero real factor sp_cf i k per setup i and mode k, Fn / Xi rows per setup (same length in every setup), and
+   g^T g <> 0 on the reference part of every mode.  The SingleSetups hold, for every algorithm, the restriction of its
+   global table to the setup's sensors times the factors (setups_of).  Then the constructor accepts them and
+   merge_results() returns - for EVERY algorithm, under its name, in the order of the names - the record merged_of:
+   Phi[row][k] = sp_cf 0 k * G[order[row]][k], order = references in the first setup's order ++ roving sensors setup by
+   setup (merged_order), Fn / Xi = poser_stats of that algorithm's rows (means, population variance / mean^2).     *)
+Theorem C02_class_recovers_global : forall (names:list string) (spec:nat -> alg_spec R) (nalg:nat) (s0 rf0:list nat) (rest:list (list nat * list nat)),
+  let lay := (s0,rf0)::rest in
+  rest <> [] -> nalg <> 0%nat -> NoDup names -> List.length names = nalg ->
+  rf0 <> [] -> NoDup rf0 -> (forall i, In i rf0 -> (i < List.length s0)%nat) ->
+  (forall s rf, In (s,rf) rest -> pick 0%nat s rf = pick 0%nat s0 rf0 /\ NoDup rf /\ forall i, In i rf -> (i < List.length s)%nat) ->
+  (forall a, (a < nalg)%nat ->
+     (forall i, (i < List.length lay)%nat ->
+        List.length (sp_fn R (spec a) i) = List.length (sp_fn R (spec a) 0%nat) /\ List.length (sp_xi R (spec a) i) = List.length (sp_xi R (spec a) 0%nat)) /\
+     (forall k, (k < sp_nm R (spec a))%nat ->
+        (forall i, (i < List.length lay)%nat -> sp_cf R (spec a) i k <> o0 K) /\
+        cnorm2 K (cdotl K (map (fun s => sp_G R (spec a) s k) (pick 0%nat s0 rf0)) (map (fun s => sp_G R (spec a) s k) (pick 0%nat s0 rf0))) <> o0 K)) ->
+  poser_class K names (setups_of R K lay spec nalg) (map snd lay)
+  = ClassRes (PoserOk (map (fun a => (nth a names EmptyString, merged_of R K s0 rf0 rest (spec a))) (seq 0 nalg))).
+Proof. exact (poser_class_recovers_global R K Fth). Qed.
+(* ... and inside that record the statistics are, mode by mode, the arithmetic mean over the setups and population
+   variance / mean^2 (so Fn_cov, Xi_cov = population standard deviation / mean), for Fn and for Xi              *)
+Theorem C02_class_recovers_global_stats : forall (s0 rf0:list nat) (rest:list (list nat * list nat)) (a:alg_spec R) (k:nat),
+  let n := S (List.length rest) in
+  ofnat K n <> o0 K ->
+  ((k < List.length (sp_fn R a 0%nat))%nat ->
+     stats_ok R K (ofnat K n) (map (fun i => nth k (sp_fn R a i) (o0 K)) (seq 0 n))
+              (nth k (m_fn (merged_of R K s0 rf0 rest a)) (o0 K)) (nth k (m_fn_cov2 (merged_of R K s0 rf0 rest a)) (o0 K))) /\
+  ((k < List.length (sp_xi R a 0%nat))%nat ->
+     stats_ok R K (ofnat K n) (map (fun i => nth k (sp_xi R a i) (o0 K)) (seq 0 n))
+              (nth k (m_xi (merged_of R K s0 rf0 rest a)) (o0 K)) (nth k (m_xi_cov2 (merged_of R K s0 rf0 rest a)) (o0 K))).
+Proof. exact (merged_of_stats R K Fth). Qed.
 End S.
 
 (* Sensor names are flattened in the very order of the merged rows: REF1..REFk, then roving names setup by setup. *)
@@ -106,6 +161,72 @@ Theorem C02_merged_order_length : forall s0 rf0 others,
   = (List.length rf0 + List.length (drop_at s0 rf0 0%nat ++ List.concat (map (fun sr => drop_at (fst sr) (snd sr) 0%nat) others)))%nat.
 Proof. exact merged_order_length. Qed.
 
+(* ---- the class glue, for every carrier and every input (no field law needed) ----
+   A successful MultiSetup_PoSER(ref_ind, setups, names).merge_results() with distinct names: there are at least two
+   setups, one record per name in the order of the names, and the record at position k is built from the k-th algorithm
+   of every setup, in setup order, against ref_ind exactly as it was passed (setup s is split at ref_ind[s]):
+   its Phi is merge_mode_shapes of those shapes and ref_ind, its Fn / Xi / dispersions are poser_stats of those rows. *)
+Theorem C02_class_forwarding : forall R (K:Ops R) (names:list string) (setups:list (setup R)) (refl:list (list nat)) (res:list (string * merged R)),
+  poser_class K names setups refl = ClassRes (PoserOk res) -> NoDup names ->
+  (2 <= List.length setups)%nat /\ List.length res = List.length names /\
+  forall k, (k < List.length names)%nat ->
+    let algs := map (fun su : setup R => nth k su alg_dflt) setups in
+    let m := snd (nth k res (EmptyString, merged_dflt)) in
+    fst (nth k res (EmptyString, merged_dflt)) = nth k names EmptyString /\
+    merge_mode_shapes K (map a_phi algs) refl = MergeOk (m_phi m) /\
+    m_fn m = map fst (poser_stats K (map a_fn algs)) /\ m_fn_cov2 m = map snd (poser_stats K (map a_fn algs)) /\
+    m_xi m = map fst (poser_stats K (map a_xi algs)) /\ m_xi_cov2 m = map snd (poser_stats K (map a_xi algs)).
+Proof. exact (@class_forwarding). Qed.
+(* the same as an equation, errors included: the groups are exactly the columns of the setups x algorithms table, merged
+   one after the other in the order of the names, the first failing group ending the call                          *)
+Theorem C02_merge_results_by_position : forall R (K:Ops R) (names:list string) (setups:list (setup R)) (refl:list (list nat)),
+  NoDup names -> (forall su, In su setups -> List.length su = List.length names) ->
+  merge_results K names setups refl
+  = seq_groups (map (fun k => (nth k names EmptyString, merge_group K (map (fun su : setup R => nth k su alg_dflt) setups) refl))
+                    (seq 0 (List.length names))).
+Proof. exact (@merge_results_by_position). Qed.
+(* a group yields a record exactly when its Fn rows and its Xi rows are rectangular and merge_mode_shapes succeeds on its
+   shapes with ref_ind; the record holds that merged shape and the statistics of those rows, nothing else         *)
+Theorem C02_merge_group_ok_iff : forall R (K:Ops R) (algs:list (alg_res R)) (refl:list (list nat)) (m:merged R),
+  merge_group K algs refl = GroupOk m <->
+  uniform (map a_fn algs) = true /\ uniform (map a_xi algs) = true /\
+  merge_mode_shapes K (map a_phi algs) refl = MergeOk (m_phi m) /\
+  m_fn m = map fst (poser_stats K (map a_fn algs)) /\ m_fn_cov2 m = map snd (poser_stats K (map a_fn algs)) /\
+  m_xi m = map fst (poser_stats K (map a_xi algs)) /\ m_xi_cov2 m = map snd (poser_stats K (map a_xi algs)).
+Proof. exact (@merge_group_ok_iff). Qed.
+(* distinct names are needed: the names are dictionary keys, two positions with one name fall into one group.  Two setups
+   x two algorithms (classes A, B) named a, a: the constructor accepts them, the single group holds four shapes for two
+   reference lists, the call ends in an IndexError - whereas position by position both merges succeed.            *)
+Theorem C02_by_position_dup_names_refuted : exists (names:list string) (setups:list (setup Qc)) (refl:list (list nat)),
+  poser_init names setups = InitOk /\ (forall su, In su setups -> List.length su = List.length names) /\
+  merge_results QcOps names setups refl = PoserIndexErr /\
+  exists res, seq_groups (map (fun k => (nth k names EmptyString, merge_group QcOps (map (fun su : setup Qc => nth k su alg_dflt) setups) refl))
+                              (seq 0 (List.length names))) = PoserOk res.
+Proof. exact dup_names_refuted. Qed.
+
+(* ---- flatten_sns_names, every multi-setup argument form (flatten_gen of M_poser.v) ----
+   list of lists, and table (DataFrame) whose rows are padded with NaN to any common width w (needs two rows or more:
+   a one-row table is a single-setup geometry): both give REF1..REFk then the roving names setup by setup - the very
+   list of C02_flatten_matches_merge / C02_names_follow_rows, i.e. the order of the merged rows.                   *)
+Theorem C02_flatten_forms_match_merge : forall (nm:nat -> string) (w:nat) (s0 rf0:list nat) (others:list (list nat * list nat)),
+  let lay := (s0,rf0)::others in
+  let names := (ref_names (List.length rf0) ++
+                map nm (drop_at s0 rf0 0%nat ++ List.concat (map (fun sr : list nat * list nat => drop_at (fst sr) (snd sr) 0%nat) others)))%list in
+  flatten_gen (NLists (map (fun sr : list nat * list nat => map nm (fst sr)) lay)) (Some (map snd lay)) = FlatG (map Some names) /\
+  (others <> [] ->
+   flatten_gen (NTable (map (fun sr : list nat * list nat => pad_row w (map nm (fst sr))) lay)) (Some (map snd lay)) = FlatG (map Some names)).
+Proof. exact flatten_forms_match_merge. Qed.
+Theorem C02_flatten_table_as_lists : forall (rows:list (list (option string))) (refl:option (list (list nat))),
+  (2 <= List.length rows)%nat -> flatten_gen (NTable rows) refl = flatten_gen (NLists (map not_nan rows)) refl.
+Proof. exact flatten_table_as_lists. Qed.
+Theorem C02_flatten_table_one_row : forall (row:list (option string)) (refl:option (list (list nat))),
+  flatten_gen (NTable [row]) refl = FlatG row.
+Proof. exact flatten_table_one_row. Qed.
+Theorem C02_flatten_lists_multi : forall (names:list (list string)) (rl:list (list nat)),
+  rl <> [] -> List.length names = List.length rl ->
+  flatten_lists names (Some rl) = match flatten_multi names (Some rl) with FlatOk l => FlatG (map Some l) | FlatAttrErr => FlatGAttrErr end.
+Proof. exact flatten_lists_multi. Qed.
+
 Print Assumptions C02_merge_recovers_global.
 Print Assumptions C02_merge_modes_recover.
 Print Assumptions C02_msf_scaled.
@@ -116,6 +237,18 @@ Print Assumptions C02_flatten_matches_merge.
 Print Assumptions C02_names_follow_rows.
 Print Assumptions C02_order_of_merged_order.
 Print Assumptions C02_merged_order_length.
+Print Assumptions C02_merged_stats.
+Print Assumptions C02_stats_ok_unfold.
+Print Assumptions C02_class_recovers_global.
+Print Assumptions C02_class_recovers_global_stats.
+Print Assumptions C02_class_forwarding.
+Print Assumptions C02_merge_results_by_position.
+Print Assumptions C02_merge_group_ok_iff.
+Print Assumptions C02_by_position_dup_names_refuted.
+Print Assumptions C02_flatten_forms_match_merge.
+Print Assumptions C02_flatten_table_as_lists.
+Print Assumptions C02_flatten_table_one_row.
+Print Assumptions C02_flatten_lists_multi.
 
 (* non-vacuity at Qc: global complex shape over 5 sensors, setups see [0;1;2] (refs at positions [2;0]) x 2 and
    [3;2;0;4] (refs at [1;2]) x (-1/2); the merged column is 2*g over sensors [2;0;1;3;4]. *)
@@ -144,4 +277,41 @@ Example C02_example_stats :
   map (fun mc => (showQc (fst mc), showQc (snd mc))) (poser_stats QcOps [[q 1 1; q 5 1]; [q 2 1; q 5 1]; [q 3 1; q 5 1]])
   = [("2/1", "1/6"); ("5/1", "0/1")]%string
   /\ showQc (pvar QcOps (q 3 1) [q 1 1; q 2 1; q 3 1]) = "2/3"%string /\ showQc (svar Qc QcOps (q 3 1) [q 1 1; q 2 1; q 3 1]) = "1/1"%string.
+Proof. vm_compute. repeat split; reflexivity. Qed.
+
+(* the class end to end on 3 setups x 2 algorithms (classes FDD / SSI, 2 and 3 modes, different global tables, factors,
+   Fn / Xi rows): hypotheses of C02_class_recovers_global hold (reference parts agree with the first setup's, g^T g <> 0
+   for every algorithm and mode) and the class returns merged_of for both names                                    *)
+Definition C02_exG1 := fun (s k:nat) => nth k (nth s [[(q 1 1, q 1 2); (q 2 1, q 0 1)]; [(q (-3) 4, q 0 1); (q 1 1, q 1 1)]; [(q 2 1, q (-1) 1); (q (-1) 2, q 0 1)];
+                                     [(q 1 4, q 1 1); (q 3 1, q 0 1)]; [(q (-1) 1, q 3 2); (q 1 8, q (-1) 1)]] []) (c0 QcOps).
+Definition C02_exspec (a:nat) : alg_spec Qc :=
+  match a with
+  | 0%nat => {| sp_cls := "FDD"; sp_G := C02_exG1; sp_nm := 2;
+                sp_cf := fun i k => nth k (nth i [[q 2 1; q (-1) 4]; [q (-1) 2; q 5 1]; [q 3 1; q 1 2]] []) (q 1 1);
+                sp_fn := fun i => nth i [[q 1 1; q 5 1]; [q 2 1; q 5 1]; [q 3 1; q 5 1]] [];
+                sp_xi := fun i => nth i [[q 1 100; q 2 100]; [q 3 100; q 2 100]; [q 2 100; q 2 100]] [] |}
+  | _ => {| sp_cls := "SSI"; sp_G := fun s k => (q (Z.of_nat s + 1) 1, q (Z.of_nat k) 3); sp_nm := 3;
+            sp_cf := fun i k => q (Z.of_nat (i + 2 * k) + 1) 2;
+            sp_fn := fun i => [q (Z.of_nat i) 1; q 7 1; q 9 2];
+            sp_xi := fun i => [q 1 50] |}
+  end.
+Example C02_example_class :
+  let rest := [([3;2;0;4], [1;2]); ([1;0;2], [2;1])]%nat in
+  let lay := ([0;1;2], [2;0])%nat :: rest in
+  show_class 0 99 (poser_class QcOps ["fdd"; "ssi"]%string (setups_of Qc QcOps lay C02_exspec 2) (map snd lay))
+  = show_class 0 99 (ClassRes (PoserOk (map (fun a => (nth a ["fdd"; "ssi"]%string EmptyString, merged_of Qc QcOps [0;1;2]%nat [2;0]%nat rest (C02_exspec a))) (seq 0 2))))
+  /\ forallb (fun sr : list nat * list nat => list_eqb Nat.eqb (pick 0%nat (fst sr) (snd sr)) [2;0]%nat) rest = true
+  /\ forallb (fun a => forallb (fun k => negb (Qc_eq_bool (cnorm2 QcOps (cdotl QcOps (map (fun s => sp_G Qc (C02_exspec a) s k) [2;0]%nat)
+                                                                                     (map (fun s => sp_G Qc (C02_exspec a) s k) [2;0]%nat))) (o0 QcOps)))
+                                 (seq 0 (sp_nm Qc (C02_exspec a)))) (seq 0 2) = true
+  /\ show_class 0 2 (poser_class QcOps ["fdd"; "ssi"]%string (setups_of Qc QcOps lay C02_exspec 2) (map snd lay))
+     = "ok:fdd=2/1 5/1|1/6 0/1|1/50 1/50|1/6 0/1|4/1,-2/1 1/8,0/1;2/1,1/1 -1/2,0/1#ssi=1/1 7/1 9/2|2/3 0/1 0/1|1/50|0/1|3/2,0/1 9/2,1/2 15/2,5/3;1/2,0/1 3/2,1/2 5/2,5/3"%string.
+Proof. vm_compute. repeat split; reflexivity. Qed.
+
+(* the table form with a NaN cell inside a row: positions are counted after the NaN cells are removed *)
+Example C02_example_flatten_table :
+  show_flat (flatten_gen (NTable [[Some "a"; None; Some "b"]; [Some "c"; Some "d"; Some "e"]]%string) (Some [[1];[1]]%nat)) = "ok:REF1,a,c,e"%string
+  /\ show_flat (flatten_gen (NTable [[Some "a"; None; Some "b"]]%string) (Some [[1]]%nat)) = "ok:a,nan,b"%string
+  /\ show_flat (flatten_gen (NLists [["a"]; []]%string) (Some [[0]]%nat)) = "ok:REF1"%string
+  /\ show_flat (flatten_gen (NLists [["a"]; ["b"]]%string) (Some [[0]]%nat)) = "IndexError"%string.
 Proof. vm_compute. repeat split; reflexivity. Qed.
